@@ -4,6 +4,7 @@ import PyYetiVerif.Lemmas.Op4Bytes
 import PyYetiVerif.Lemmas.Op4AsciiPuts
 import PyYetiVerif.Lemmas.Op4AsciiHalf
 import PyYetiVerif.Lemmas.Op4Coo
+import PyYetiVerif.Lemmas.Op4Input
 /-!
 # C04 — OUTPUT4 write followed by read is the identity
 
@@ -672,5 +673,110 @@ example :
     autoOf .nonbigmat z = false ∧ autoOf .bigmat z = true ∧ autoOf .dense z = false ∧
       (writeFileWords .little [(.nonbigmat, z)]).toOption = encFileWords .little [(.dense, z)] := by
   decide
+
+/-! ## `write` on its arguments (Model/Op4Input.lean) -/
+
+/-- `np.atleast_2d`: a 0-d input is 1×1, a 1-d input of `n` elements is **1×n**, a 2-d input keeps its
+shape, anything above raises -/
+theorem ensure_2d_shapes (n r c : Nat) (rest : List Nat) :
+    atleast2d [] = some (1, 1) ∧ atleast2d [n] = some (1, n) ∧ atleast2d [r, c] = some (r, c) ∧
+      atleast2d (n :: r :: c :: rest) = none :=
+  ⟨rfl, rfl, rfl, rfl⟩
+
+/-- a 1-d array is written as one row: the matrix handed to the writer has `rows = 1` and one column per
+element (not one column of `n` rows) -/
+theorem vector_input_is_row (close : Entry → Entry → Bool) (add : Nat → Nat → Nat) (name : Name) (form : Nat)
+    (a : NdIn) (n : Nat) (hshape : a.shape = [n]) (hlen : a.elems.length = n) :
+    normOne close add name (some form) (.nd a) =
+      some (.nd { name := name, form := form, cplx := a.cplx, rows := 1,
+                  cols := a.elems.map fun x => [entryOfRaw a.cplx x] }) := by
+  simp only [normOne, hshape, atleast2d, Option.getD_some, colsOfNd_vector a n hlen]
+
+/-- **write_input_normalised.**  Whatever `write` is given — a mapping or lists / single values for names,
+matrices and forms; 0-d, 1-d or 2-d arrays of any real or complex dtype; scipy.sparse matrices — if `prepare`
+succeeds (no array with more than two dimensions) then
+* the binary file is the file the checked ndarray writer `writeFileWords` produces for the *normalised* list
+  `(layout, w.dense)`: 2-d double-precision matrices (`atleast2d`, `Raw.toD`, `denseMat`) with checked names and
+  resolved forms and layouts (for a sparse input in the dense layout: as long as no record length leaves the
+  int32 range, `sparse_input_reclen_wraps`), and every ASCII matrix is the text of `encMatAscii` for it;
+* as many matrices are written as the shortest of the three argument lists has entries (`zip`), in order, and
+  the `k`-th one is the `k`-th name (through `_check_write_names` with index `k`), matrix and form. -/
+theorem write_input_normalised (close : Entry → Entry → Bool) (add : Nat → Nat → Nat) (e : Endian) (d : Nat)
+    (opt : Option Layout) (names : NamesArg) (mats : MatsArg) (forms : FormsArg) (ws : List (Layout × WMat))
+    (hprep : prepare close add opt names mats forms = some ws)
+    (hnowrap : ∀ p ∈ ws, p.1 = .dense → ∀ name form A, p.2 = .sp name form A → ∀ c, c < A.ncols →
+      recLen .dense A.cplx (denseCol add A c) < 2147483648) :
+    writeAllWords add e ws = writeFileWords e (ws.map fun p => (p.1, p.2.dense add)) ∧
+      (∀ p ∈ ws, writeOneAscii add d p.1 p.2 = encMatAscii d p.1 (p.2.dense add)) ∧
+      ws.length = min (plumb names mats forms).1.length
+        (min (plumb names mats forms).2.1.length (plumb names mats forms).2.2.length) ∧
+      ∀ (k : Nat) (p : Layout × WMat), ws[k]? = some p →
+        ∃ n m f, (plumb names mats forms).1[k]? = some n ∧ (plumb names mats forms).2.1[k]? = some m ∧
+          (plumb names mats forms).2.2[k]? = some f ∧ normOne close add (writeName k n) f m = some p.2 ∧
+          p.1 = resolveLayout opt p.2.isSparse p.2.rows := by
+  refine ⟨writeAllWords_dense add e ws hnowrap, fun p _ => writeOneAscii_dense add d p.1 p.2, ?_, ?_⟩
+  all_goals
+    unfold prepare at hprep
+    dsimp only at hprep
+    split at hprep
+    · cases hprep
+  · have h := (mapM_some_get _ _ ws hprep).1
+    rw [h, zip3_length, checkNames_length]
+  · intro k p hp
+    obtain ⟨x, hx, hfx⟩ := (mapM_some_get _ _ ws hprep).2 k p hp
+    obtain ⟨h1, h2, h3⟩ := zip3_get _ _ _ k x hx
+    rw [checkNames_get] at h1
+    cases hn : (plumb names mats forms).1[k]? with
+    | none => rw [hn] at h1; cases h1
+    | some n =>
+      rw [hn] at h1
+      simp only [Option.map_some, Nat.zero_add, Option.some.injEq] at h1
+      refine ⟨n, x.2.1, x.2.2, rfl, h2, h3, ?_⟩
+      obtain ⟨xn, xm, xf⟩ := x
+      simp only at h1 hfx ⊢
+      cases hno : normOne close add xn xf xm with
+      | none => simp [hno] at hfx
+      | some w =>
+        simp only [hno, Option.map_some, Option.some.injEq] at hfx
+        subst hfx
+        subst h1
+        exact ⟨hno, rfl⟩
+
+/-- the plumbing of the three argument forms: a mapping contributes its items in order with the form from a
+`(matrix, form)` value; otherwise single values become one-element lists and `forms=None` one `None` per name -/
+theorem plumb_spec (items : List (Name × DictVal)) (ns : List Name) (n : Name) (ms : List MatIn) (m : MatIn)
+    (f : Nat) (fs : List (Option Nat)) (mats : MatsArg) (forms : FormsArg) :
+    (plumb (.dict items) mats forms).1 = items.map (·.1) ∧
+      plumb (.list ns) (.list ms) .none = (ns, ms, List.replicate ns.length none) ∧
+      plumb (.one n) (.one m) (.one f) = ([n], [m], [some f]) ∧
+      plumb (.list ns) (.list ms) (.list fs) = (ns, ms, fs) :=
+  ⟨rfl, rfl, rfl, rfl⟩
+
+/-- every `write` call replaces the file (`open(filename, "wb")`): after any sequence of calls the file holds
+what the last call wrote -/
+theorem write_replaces_file {α} (init : List α) (calls : List (List α)) (last : List α) :
+    fileAfter init (calls ++ [last]) = last := by
+  induction calls with
+  | nil => rfl
+  | cons c t ih =>
+    cases t with
+    | nil => rfl
+    | cons c2 t2 => simpa [fileAfter] using ih
+
+/-- non-vacuity of the input theorems: a dictionary with a float32 vector, an integer scalar and a `(matrix,
+form)` pair; `forms` shorter than `names` drops the rest -/
+example :
+    let v : MatIn := .nd { shape := [3], cplx := false, elems := [(.f32 0x3FC00000, .f64 0), (.int 0, .f64 0), (.int (-2), .f64 0)] }
+    let s : MatIn := .nd { shape := [], cplx := false, elems := [(.bool true, .f64 0)] }
+    let close : Entry → Entry → Bool := fun a b => a == b
+    let add : Nat → Nat → Nat := fun a b => a + b
+    (prepare close add none (.dict [([118], .mat v), ([49], .pair s (some 9))]) (.list []) .none).map
+        (fun ws => ws.map fun p => (p.1, p.2.dense add)) =
+      some [(.dense, { name := [118], form := 2, cplx := false, rows := 1,
+                       cols := [[(0x3FF8000000000000, 0)], [(0, 0)], [(0xC000000000000000, 0)]] }),
+            (.dense, { name := [109, 49], form := 9, cplx := false, rows := 1, cols := [[(0x3FF0000000000000, 0)]] })] ∧
+      ((prepare close add none (.list [[97], [98]]) (.list [v, s]) (.list [some 1])).map List.length) = some 1 ∧
+      prepare close add none (.one [97]) (.one (.nd { shape := [1, 1, 1], cplx := false, elems := [] })) .none = none := by
+  decide +kernel
 
 end PyYetiVerif.C04
